@@ -801,6 +801,9 @@ func corpusGE(cfg *config) []string {
 		// recorded finding: a latitude of exactly 45 degrees (the geodesic dependency's sincosdx)
 		"rt " + hexFloats(10, 20, 45, 85, 7269223.2),
 		"sd " + hexFloats(-84.145064, -84.145064),
+		// a point due west of the centre a few kilometres inside the horizon: y is exactly zero and x
+		// five million kilometres (a past false alarm of the plane round trip's tolerance)
+		"rt 4032e342e1e14117 c03d8990eae8f192 3f86c56698da8950 c05dce0aa04d25c8 41630a90405009d3 3f52d7ba81690363",
 		// recorded findings: the same slip of the geodesic dependency at a longitude difference of
 		// exactly 45 degrees, and at an azimuth of exactly 45 degrees (a point on the plane's diagonal)
 		"rt " + hexFloats(48, 2, 50, 47, 3.3e6),
